@@ -31,6 +31,14 @@ CLAIMED = {
         "Trusted: the reference model simkit/refzone.py (written from the documentation), the op translators in checks/zonesim.py, dns.name/dns.rdata value semantics used as hashable keys.",
         "DESIGN.md 3.1",
     ),
+    "C11": (
+        "zonesim",
+        "deterministic simulation: seeded interleaved histories of reader open/close, commits, rollbacks, policy changes and hostile mutator sweeps against a version-store model, with snapshot equality and structural fingerprints checked after every step",
+        "exploration",
+        "Seeded multi-client histories (readers opened on latest/id/serial and held across later commits, writers that commit/roll back/raise, set_max_versions/set_pruning_policy changes) on both versioned implementations; after every step the retained ids must equal the retention model and satisfy the model-independent invariants (increasing, contiguous, newest and every pinned version retained), every open reader must still read exactly its version, and a reflective sweep of every public method and in-place operator of every object reachable from a snapshot must leave an identity-level fingerprint of all retained versions unchanged; curated mutators must raise.",
+        "Trusted: retention model in checks/c11.py (the documented rule), the reference zone model, the reflective sweep's argument sets (a mutator needing arguments outside them is not exercised). Attribute assignment is checked only on @immutable classes; poking private attributes of plain containers (BTreeDict.root) is not counted as a public mutator.",
+        "DESIGN.md 3.2",
+    ),
     "C12": (
         "threadsim",
         "deterministic simulation: seeded baton-passing thread scheduler with shimmed threading.Lock/Event and line-level pre-emption; invariants per step + serial-equivalence history check",
